@@ -1123,11 +1123,13 @@ def jobs_C16(rng, tier):
     # CONSTANT sequence (its rounding residue may be non-zero but must not change from step to step), otherwise the outer view
     # amplifies a few ulps to a full-scale answer (wave-4 seed C16d: Sma re-summed its window every N updates; HLNormalizer
     # over it reported +-1 on a flat window).  Outer views whose own running sums already keep residue in the unchanged crate
-    # (Rsi, MyRSI, Vst: K3) are not used here.
-    for _ in range(scale_n(tier, 60, 600)):
-        o = rng.choice(["hln", "net", "cti", "vsct", "wo", "bent", "cog", "min", "max", "roc"])
-        i = rng.choice(["sma", "alma", "cum", "min", "max", "hln"] + ([] if o == "roc" else ["wo"]))
-        ni, no = rng.randint(2, 8), rng.randint(2, 8)
+    # (Rsi, MyRSI, Vst, Vsct: K3) are not used here.
+    for _ in range(scale_n(tier, 240, 2000)):
+        o = rng.choice(["hln", "hln", "net", "net", "cti", "wo", "bent", "cog", "min", "max", "roc"])
+        # (not over Alma: its incrementally maintained weighted sum changes by an ulp from step to step on a flat window, which
+        # a normaliser over it amplifies to +-1 in the unchanged crate — known finding K7)
+        i = rng.choice(["sma", "sma", "sma", "cum", "cum", "min", "max", "hln"] + ([] if o == "roc" else ["wo"]))
+        ni, no = rng.choice([2, 3, 3, 5, 6, 7, 7, 8, 9, 10, 12]), rng.randint(2, 8)
         e = mk(o, mk(i, ECHO, gen.gen_params(rng, i, 8, n=ni)), gen.gen_params(rng, o, 8, n=no))
         k = rng.randint(5, 40)
         dc = lambda: F(float(F(rng.randint(-2000, 2000), 10 ** rng.choice([1, 1, 2, 3])) * rng.choice([1, 1, 1, 100])))
@@ -1386,6 +1388,8 @@ def finding_matches(entry, job, failure):
     if m.get("view") and (e is None or e[0] != m["view"]):
         return False
     if m.get("top_only") and e is not None and any(isinstance(a, tuple) and a != ECHO for a in e[1:]):
+        return False
+    if m.get("inner_view") and (e is None or len(e) < 2 or not isinstance(e[1], tuple) or e[1][0] != m["inner_view"]):
         return False
     if m.get("rel") and getattr(job, "rel", None) != m["rel"]:
         return False
